@@ -1316,7 +1316,7 @@ class DocTest:
             lines += after_parts_lines
 
         lines += [self._color(self._block_prefix + ' TRACEBACK', 'white')]
-        if hasattr(ex_value, 'output_difference'):
+        if isinstance(ex_value, checker.GotWantException):
             lines += [
                 ex_value.output_difference(self._runstate, colored=colored),
                 ex_value.output_repr_difference(self._runstate)
